@@ -80,11 +80,12 @@ type opOut struct {
 }
 
 type fetchRec struct {
-	Key      string
-	N        int
-	StartSeq int
-	EndSeq   int
-	OK       bool
+	LeaderCall int // invoke seq of the Get call that ran this fetch
+	Key        string
+	N          int
+	StartSeq   int
+	EndSeq     int
+	OK         bool
 }
 
 func (C16b) Run(t *testing.T, scn any) *sim.Outcome {
@@ -132,7 +133,7 @@ func (C16b) Run(t *testing.T, scn any) *sim.Outcome {
 						v, err := cache.Get(k, func() (string, error) {
 							n := fetchCount[k]
 							fetchCount[k]++
-							fr := &fetchRec{Key: k, N: n, StartSeq: next()}
+							fr := &fetchRec{Key: k, N: n, StartSeq: next(), LeaderCall: call}
 							fetches = append(fetches, fr)
 							hist = append(hist, fmt.Sprintf("%d fetch-start c%d %s#%d", fr.StartSeq, ci, k, n))
 							sched.Park("fetch:" + k) // slow fetch
@@ -282,6 +283,17 @@ func (C16b) Run(t *testing.T, scn any) *sim.Outcome {
 		for _, f := range fetches {
 			if !f.OK && o.Err == fmt.Sprintf("fetch-error-%s#%d", f.Key, f.N) {
 				found = true
+				// errors are never cached: a lookup may return the error of a fetch only if it ran that
+				// fetch itself or was invoked while the lookup that ran it was still in progress
+				leaderReturn := int64(1 << 60)
+				for _, lo := range ops {
+					if lo.Call == int64(f.LeaderCall) {
+						leaderReturn = lo.Return
+					}
+				}
+				if op.Call > leaderReturn {
+					out.Violate("stale-error", "cache-stale-error", "Get (seq %d..%d) returned the error of fetch #%d although the lookup that ran that fetch had already returned at seq %d: a failed fetch was remembered; %s", op.Call, op.Return, f.N, leaderReturn, ctx)
+				}
 			}
 		}
 		if !found {
